@@ -46,6 +46,8 @@ var workloads = []workload{
 	{"race-notifs", "notif", nil, false, true, true},
 	// user callbacks that register / unregister while they run, slow callbacks (reent.go)
 	{reentName, "all", nil, false, true, false},
+	// requests that must be refused, mixed in between registrations (malformed.go)
+	{malformedName, "all", nil, false, true, false},
 }
 
 const reentName = "reentrant"
@@ -80,7 +82,8 @@ type childResult struct {
 	Overlapping int            `json:"overlapping"` // observations whose window contained a write
 	Violations  []hk.Violation `json:"violations"`
 	WallS       float64        `json:"wall_s"`
-	Runs        []reentRun     `json:"runs,omitempty"` // reentrant workload: completed cases as sequential histories
+	Runs        []reentRun     `json:"runs,omitempty"`    // reentrant / malformed workloads: completed cases as sequential histories
+	Answers     map[string]int `json:"answers,omitempty"` // malformed workload: how the refused requests were answered
 }
 
 func fullName(kind, base string) string {
@@ -115,6 +118,9 @@ func childMain(name string) {
 	}
 	if wl.Name == reentName {
 		run = runReentWorkload
+	}
+	if wl.Name == malformedName {
+		run = runMalformedWorkload
 	}
 	res, err := run(*wl, seed, scale)
 	if err != nil {
@@ -674,6 +680,9 @@ func runConcurrent(c *hk.Ctx) {
 			if o.wl.Name == reentName {
 				what = "workload reentrant (user callbacks that register / unregister / list while they run, one server per case): the process died"
 			}
+			if o.wl.Name == malformedName {
+				what = "workload malformed (requests that must be refused, between and during registrations): the process died"
+			}
 			if at := strings.Index(o.stderr, "fatal error: concurrent map"); at >= 0 {
 				line := o.stderr[at:]
 				if nl := strings.IndexByte(line, '\n'); nl >= 0 {
@@ -703,6 +712,16 @@ func runConcurrent(c *hk.Ctx) {
 		}
 		for _, v := range res.Violations {
 			c.Violate(v)
+		}
+		if o.wl.Name == malformedName {
+			for _, r := range res.Runs {
+				c.Emit(map[string]any{"c": "registry.run", "ops": histJSON(r.Ops)}, map[string]any{"outs": r.Outs}, true, "malformed", "malformed:"+r.Name)
+			}
+			for i := 0; i < res.Lists; i++ {
+				c.Count(fmt.Sprintf("conc:%s:%d", o.wl.Name, i), true, nil, "malformed:bounded-operation")
+			}
+			extra[o.wl.Name] = map[string]any{"malformed_request_classes": res.Calls, "completed": len(res.Runs), "bounded_operations": res.Lists, "answers": res.Answers, "wall_s": res.WallS}
+			continue
 		}
 		if o.wl.Name == reentName {
 			// completed re-entrancy cases are sequential histories: diffed with the model like the others
